@@ -22,15 +22,17 @@ Reading of the statements below.
   of symbols of `w` in `cnt`), `w[i]?` (symbol at a position).
 * Minimality: `MinimalShape d` (no repeated state, every state reachable by a word over the
   alphabet, any two states distinguished by a word over the alphabet; for partial results
-  `MinimalPartialShape` adds: every state is live) and its consequence, by the counting lemma
-  `C15_minimal_of_shape`, `MinimalAmongComplete d` / `MinimalAmongAll d`: every valid
-  (complete / arbitrary) DFA over the same alphabet with the same language has at least as
-  many states.
+  `MinimalPartialShape` adds: every state is live) and its consequence, by the counting lemmas
+  of `Proofs/Minimal.lean` (`C15_minimal_of_shape`, `C15_minimal_of_partial_shape`),
+  `MinimalAmongComplete d` / `MinimalAmongAll d`: every valid complete DFA (over an alphabet
+  containing that of `d`) / every valid DFA whatsoever with the same language has at least as
+  many (live) states.
 -/
 import AutomataVerif.Proofs.CtorNth
 import AutomataVerif.Proofs.CtorPrefix
 import AutomataVerif.Proofs.CtorKMPDfa
 import AutomataVerif.Proofs.CtorACDfa
+import AutomataVerif.Proofs.Minimal
 
 namespace AV.Props.C15
 open AV AV.Ctor
@@ -43,31 +45,39 @@ def Builds (r : Res (DFA σ α)) (syms : List α) (L : List α → Prop) : Prop 
   ∃ d, r = .ok d ∧ d.validate = .ok () ∧ d.syms = syms ∧
     ∀ w, d.accepts w = true ↔ (Over syms w ∧ L w)
 
-/-- No valid *complete* DFA over the same alphabet with the same language has fewer states. -/
+/-- No valid *complete* DFA with the same language, over an alphabet containing that of `d`, has
+fewer states. -/
 def MinimalAmongComplete (d : DFA σ α) : Prop :=
   ∀ (σ' : Type) [DecidableEq σ'] (d' : DFA σ' α), d'.validate = .ok () → d'.allowPartial = false →
-    (∀ a, a ∈ d'.syms ↔ a ∈ d.syms) → (∀ w, d'.accepts w = d.accepts w) →
+    (∀ a ∈ d.syms, a ∈ d'.syms) → (∀ w, d'.accepts w = d.accepts w) →
     d.states.length ≤ d'.states.length
 
-/-- No valid DFA at all (partial or complete) over the same alphabet with the same language has
-fewer states. -/
+/-- No valid DFA at all (partial or complete, any alphabet) with the same language has fewer
+states — not even fewer *live* states. -/
 def MinimalAmongAll (d : DFA σ α) : Prop :=
   ∀ (σ' : Type) [DecidableEq σ'] (d' : DFA σ' α), d'.validate = .ok () →
-    (∀ a, a ∈ d'.syms ↔ a ∈ d.syms) → (∀ w, d'.accepts w = d.accepts w) →
-    d.states.length ≤ d'.states.length
+    (∀ w, d'.accepts w = d.accepts w) →
+    d.states.length ≤ d'.liveStates.length ∧ d'.liveStates.length ≤ d'.states.length
 
-/-- **Counting lemma.** All states reachable and pairwise distinguishable ⇒ no equivalent
-complete DFA has fewer states. -/
-theorem C15_minimal_of_shape (d : DFA σ α) (h : MinimalShape d) : MinimalAmongComplete d := by
+/-- **Counting lemma** (`Proofs/Minimal.lean`, shared with C05).  All states reachable and
+pairwise distinguishable ⇒ no equivalent complete DFA has fewer states. -/
+theorem C15_minimal_of_shape (d : DFA σ α) (wf : d.WF) (h : MinimalShape d) : MinimalAmongComplete d := by
   intro σ' _ d' hv hc hs hl
-  exact h.length_le d' ((DFA.validate_eq_ok d').mp hv) hs hl (Or.inl hc)
+  exact DFA.minimal_of_reachable_distinguishable_complete d d' wf h.nodup
+    (fun q hq => let ⟨w, _, hw⟩ := h.reach q hq; ⟨w, hw⟩)
+    (fun p hp q hq hne => let ⟨w, _, hw⟩ := h.dist p hp q hq hne; ⟨w, hw⟩)
+    ((DFA.validate_eq_ok d').mp hv) hc hs hl
 
 /-- All states reachable, pairwise distinguishable and live ⇒ no equivalent DFA, partial or
-complete, has fewer states. -/
+complete, has fewer (live) states. -/
 theorem C15_minimal_of_partial_shape (d : DFA σ α) (h : MinimalPartialShape d) :
     MinimalAmongAll d := by
-  intro σ' _ d' hv hs hl
-  exact h.toMinimalShape.length_le d' ((DFA.validate_eq_ok d').mp hv) hs hl (Or.inr h.live)
+  intro σ' _ d' hv hl
+  exact DFA.minimal_of_reachable_distinguishable_partial d d' h.nodup
+    (fun q hq => let ⟨w, _, hw⟩ := h.reach q hq; ⟨w, hw⟩)
+    (fun p hp q hq hne => let ⟨w, _, hw⟩ := h.dist p hp q hq hne; ⟨w, hw⟩)
+    (fun q hq => let ⟨w, _, hw⟩ := h.live q hq; ⟨w, hw⟩)
+    ((DFA.validate_eq_ok d').mp hv) hl
 
 private theorem builds_of (syms : List α) {D : DFA σ α} {r : Res (DFA σ α)} (hr : r = build D)
     (wf : D.WF) (hs : D.syms = syms) {L : List α → Prop}
@@ -77,6 +87,10 @@ private theorem builds_of (syms : List α) {D : DFA σ α} {r : Res (DFA σ α)}
 private theorem eq_of_build {D d : DFA σ α} {r : Res (DFA σ α)} (hr : r = build D)
     (h : r = .ok d) : d = D := by
   rw [hr] at h; exact (build_ok_iff.mp h).1
+
+private theorem wf_of_build {D d : DFA σ α} {r : Res (DFA σ α)} (hr : r = build D)
+    (h : r = .ok d) : D.WF := by
+  rw [hr] at h; exact (build_ok_iff.mp h).2
 
 /-! ## universal_language, empty_language -/
 
@@ -89,8 +103,9 @@ theorem C15_universal (syms : List α) :
   refine ⟨builds_of syms rfl (loopDFA_wf 0 syms true) rfl (fun w => by
     rw [loopDFA_accepts]; simp), ?_⟩
   intro d hd
+  have hwf := wf_of_build rfl hd
   rw [eq_of_build rfl hd]
-  exact ⟨rfl, loopDFA_minimal 0 syms true, C15_minimal_of_shape _ (loopDFA_minimal 0 syms true)⟩
+  exact ⟨rfl, loopDFA_minimal 0 syms true, C15_minimal_of_shape _ hwf (loopDFA_minimal 0 syms true)⟩
 
 /-- `empty_language(Σ)` is a valid complete one-state DFA accepting nothing; it is minimal. -/
 theorem C15_empty (syms : List α) :
@@ -100,8 +115,9 @@ theorem C15_empty (syms : List α) :
   refine ⟨builds_of syms rfl (loopDFA_wf 0 syms false) rfl (fun w => by
     rw [loopDFA_accepts]; simp), ?_⟩
   intro d hd
+  have hwf := wf_of_build rfl hd
   rw [eq_of_build rfl hd]
-  exact ⟨rfl, loopDFA_minimal 0 syms false, C15_minimal_of_shape _ (loopDFA_minimal 0 syms false)⟩
+  exact ⟨rfl, loopDFA_minimal 0 syms false, C15_minimal_of_shape _ hwf (loopDFA_minimal 0 syms false)⟩
 
 example : Builds (universalLanguage ['a', 'b']) ['a', 'b'] (fun _ => True) := (C15_universal _).1
 
@@ -189,6 +205,7 @@ theorem C15_of_length_minimal (syms : List α) (minLen : Int) (hmin : 0 ≤ minL
   intro d hd
   cases maxLen with
   | none =>
+    have hwf := wf_of_build (ofLength_eq syms minLen none count) hd
     rw [eq_of_build (ofLength_eq syms minLen none count) hd]
     have h : MinimalShape (ofLengthDFA syms minLen.toNat (count.getD syms) [nat minLen.toNat]) := by
       apply ofLengthDFA_minimal syms _ _ _ c hc hcc
@@ -198,9 +215,10 @@ theorem C15_of_length_minimal (syms : List α) (minLen : Int) (hmin : 0 ≤ minL
       have h1 : ¬ min minLen.toNat (i + (minLen.toNat - j)) = minLen.toNat := by omega
       have h2 : min minLen.toNat (j + (minLen.toNat - j)) = minLen.toNat := by omega
       simp [h1, h2]
-    exact ⟨rfl, h, C15_minimal_of_shape _ h⟩
+    exact ⟨rfl, h, C15_minimal_of_shape _ hwf h⟩
   | some mx =>
     have hm := hmax mx rfl
+    have hwf := wf_of_build (ofLength_eq syms minLen (some mx) count) hd
     rw [eq_of_build (ofLength_eq syms minLen (some mx) count) hd]
     have h : MinimalShape (ofLengthDFA syms (mx + 1).toNat (count.getD syms)
         ((List.range (mx + 1 - minLen).toNat).map fun j => minLen + nat j)) := by
@@ -219,7 +237,7 @@ theorem C15_of_length_minimal (syms : List α) (minLen : Int) (hmin : 0 ≤ minL
         rw [nat_cast, nat_cast] at e
         omega
       simp [h1, h2]
-    exact ⟨rfl, h, C15_minimal_of_shape _ h⟩
+    exact ⟨rfl, h, C15_minimal_of_shape _ hwf h⟩
 
 example : Builds (ofLength ['a', 'b'] 1 (some 2) (some ['a'])) ['a', 'b']
     (fun w => (1 : Int) ≤ countIn ['a'] w ∧ ∀ mx, some (2 : Int) = some mx → (countIn ['a'] w : Int) ≤ mx) :=
@@ -320,9 +338,10 @@ theorem C15_nth_minimal (syms : List α) (s : α) (n : Int) (hn : 1 ≤ n) (hs :
     exact hts (ht.trans hs.symm)
   constructor
   · intro d hd
+    have hwf := wf_of_build (nthFromStart_eq syms s n hn hs hlen) hd
     rw [eq_of_build (nthFromStart_eq syms s n hn hs hlen) hd]
     have h := nthStartDFA_minimal syms s n.toNat hs (by omega) t ht hts
-    refine ⟨rfl, ?_, h, C15_minimal_of_shape _ h⟩
+    refine ⟨rfl, ?_, h, C15_minimal_of_shape _ hwf h⟩
     show (akeys (nthStartTable syms s n.toNat)).length = _
     unfold nthStartTable
     rw [akeys, List.length_map, length_ainsert_new, length_ainsert_new]
@@ -334,9 +353,10 @@ theorem C15_nth_minimal (syms : List α) (s : α) (n : Int) (hn : 1 ≤ n) (hs :
       simp only [List.mem_map, List.mem_range, not_or, not_exists, not_and, nat_succ, nat_inj]
       exact ⟨by omega, fun x hx e => by omega⟩
   · intro d hd
+    have hwf := wf_of_build (nthFromEnd_eq syms s n hn hs hlen) hd
     rw [eq_of_build (nthFromEnd_eq syms s n hn hs hlen) hd]
     have h := nthEndDFA_minimal syms s n.toNat hs (by omega) t ht hts
-    exact ⟨rfl, by simp [nthEndDFA], h, C15_minimal_of_shape _ h⟩
+    exact ⟨rfl, by simp [nthEndDFA], h, C15_minimal_of_shape _ hwf h⟩
 
 example : Builds (nthFromEnd ['a', 'b'] 'a' 2) ['a', 'b']
     (fun w => (2 : Int).toNat ≤ w.length ∧ w[w.length - (2 : Int).toNat]? = some 'a') :=
@@ -358,9 +378,10 @@ theorem C15_from_subsequence_minimal (syms p : List α) (hp : ∀ c ∈ p, c ∈
     ∀ d, fromSubsequence syms p contains = .ok d →
       d.allowPartial = false ∧ MinimalShape d ∧ MinimalAmongComplete d := by
   intro d hd
+  have hwf := wf_of_build (fromSubsequence_eq syms p contains) hd
   rw [eq_of_build (fromSubsequence_eq syms p contains) hd]
   have h := subseqDFA_minimal syms p hp contains
-  exact ⟨rfl, h, C15_minimal_of_shape _ h⟩
+  exact ⟨rfl, h, C15_minimal_of_shape _ hwf h⟩
 
 example : Builds (fromSubsequence ['a', 'b'] ['a', 'b', 'a'] false) ['a', 'b']
     (fun w => ['a', 'b', 'a'].Sublist w ↔ false = true) :=
@@ -400,6 +421,7 @@ theorem C15_from_prefix_minimal (syms p : List α) (hp : ∀ c ∈ p, c ∈ syms
       (∀ b ∈ syms, p[0]? ≠ some b → p ≠ [] → MinimalShape d ∧ MinimalAmongComplete d)) := by
   constructor
   · intro d hd
+    have hwf := wf_of_build (fromPrefix_eq syms p true true) hd
     rw [eq_of_build (fromPrefix_eq syms p true true) hd]
     have h := prefPartialDFA_minimal syms p hp
     exact ⟨h, C15_minimal_of_partial_shape _ h⟩
@@ -416,7 +438,7 @@ theorem C15_from_prefix_minimal (syms p : List α) (hp : ∀ c ∈ p, c ∈ syms
         ⟨_, prefComplete_inv syms p s hs a, rfl⟩
     · intro b hb hb0 hne
       have h := prefCompleteDFA_minimal syms p hp contains asPartial b hb hb0 hne
-      exact ⟨h, C15_minimal_of_shape _ h⟩
+      exact ⟨h, C15_minimal_of_shape _ (prefCompleteDFA_wf syms p hp contains asPartial) h⟩
 
 example : Builds (fromPrefix ['a', 'b'] ['a', 'a', 'b'] false true) ['a', 'b']
     (fun w => ['a', 'a', 'b'] <+: w ↔ false = true) :=
@@ -462,6 +484,7 @@ theorem C15_from_suffix_state (syms p : List α) (hp : p ≠ []) (contains : Boo
   intro d hd w hw
   obtain ⟨T, hk, hT⟩ := KMP.kmpTable_ok p
   have hsf : true = true → p ≠ [] := fun _ => hp
+  have hwf := wf_of_build (KMP.fromSubstring_eq syms p T hT hk contains true hsf) hd
   rw [eq_of_build (KMP.fromSubstring_eq syms p T hT hk contains true hsf) hd]
   refine ⟨w.foldl (KMP.kmpStepN p T true) 0, ?_, KMP.kmp_inv_suffix p T hT hp w⟩
   exact (KMP.kmpDFA_run syms p T hT contains true hsf 0 (Nat.zero_le _) w hw).1
@@ -476,9 +499,10 @@ theorem C15_from_substring_minimal (syms p : List α) (hp : ∀ c ∈ p, c ∈ s
         MinimalAmongComplete d := by
   intro d hd
   obtain ⟨T, hk, hT⟩ := KMP.kmpTable_ok p
+  have hwf := wf_of_build (KMP.fromSubstring_eq syms p T hT hk contains sf hsf) hd
   rw [eq_of_build (KMP.fromSubstring_eq syms p T hT hk contains sf hsf) hd]
   have h := KMP.kmpDFA_minimal syms p T hT hp contains sf hsf
-  refine ⟨rfl, ?_, h, C15_minimal_of_shape _ h⟩
+  refine ⟨rfl, ?_, h, C15_minimal_of_shape _ hwf h⟩
   show (akeys (KMP.kmpTrans syms p T sf)).length = _
   unfold KMP.kmpTrans
   rw [akeys_rangeMap]; simp
@@ -609,7 +633,8 @@ theorem C15_from_finite_language_partial :
   refine ⟨builds_of syms hr (loopDFA_wf _ syms false) rfl (fun w => by
     rw [loopDFA_accepts]; simp), ?_⟩
   intro d hd
+  have hwf := wf_of_build hr hd
   rw [eq_of_build hr hd]
-  exact ⟨rfl, loopDFA_minimal _ syms false, C15_minimal_of_shape _ (loopDFA_minimal _ syms false)⟩
+  exact ⟨rfl, loopDFA_minimal _ syms false, C15_minimal_of_shape _ hwf (loopDFA_minimal _ syms false)⟩
 
 end AV.Props.C15
